@@ -77,7 +77,7 @@ func (hostsafe) Units(tier string) int {
 	if tier == "thorough" {
 		return 6000000
 	}
-	return 480000
+	return 400000
 }
 
 func (hostsafe) Describe() core.EngineInfo {
@@ -105,6 +105,8 @@ func (e hostsafe) genSource(r *core.PRNG) ([]byte, string) {
 	c := Corpus()
 	var src []byte
 	switch n := r.Intn(26); {
+	case n >= 25:
+		src = []byte(GenCycle(r.Fork()))
 	case n >= 20:
 		src = []byte(GenWild(r.Fork(), r.Chance(1, 4)))
 	case n < 12:
